@@ -6,7 +6,7 @@ import warnings
 
 import z3
 
-from vlib.h import ob
+from vlib.h import ob, native
 from vlib import astsmt
 from pgpy.types import Armorable, PGPObject
 from pgpy import PGPKey, PGPMessage, PGPSignature
@@ -340,29 +340,66 @@ def _real_unarmor():
 LENS = (0, 1, 2, 3, 45, 46, 47, 48, 49, 95, 96, 97, 200)
 
 
+HEADERS = ((), (('Comment', 'x'),), (('Comment', 'a: b: c'),), (('Version', 'v 1.0'), ('Comment', 'two words')))
+WIDTHS = (64, 76, 75, 60, 33, 2, 1)
+
+
+def _pick(sym, n):
+    """concrete int equal to the symbolic index (if-chain: one path per value)"""
+    for k in range(n):
+        if sym == k:
+            return k
+    return 0
+
+
+def _load(data):
+    """(object or None, crc warning seen)"""
+    import warnings as _w
+    with _w.catch_warnings(record=True) as caught:
+        _w.simplefilter('always')
+        try:
+            rx = PGPMessage.from_blob(data)
+        except Exception:
+            rx = None
+    return rx, any('crc24' in str(w.message).lower() for w in caught)
+
+
+def _as_kind(text, kind):
+    return text if kind == 0 else (text.encode('latin-1') if kind == 1 else bytearray(text.encode('latin-1')))
+
+
 @ob('O10.5', 'armored text round trip on concrete payloads (the armor regular expression and base64 run natively; the engine only enumerates the choices): loading the armored text - as str, bytes '
-             'or bytearray, with LF or CRLF line ends, with or without surrounding text - gives the binary export back; a corrupted payload character is reported (error or CRC warning)',
-    'literal-message payload length by symbolic index from 13 values around the 3-octet and 48-octet boundaries; input type x line ending x surrounding text; corruption position by index from 4',
-    cond_timeout={'q': 280, 't': 600}, partitions=[['li %% 4 == %d' % k] for k in range(4)])
-def armor_roundtrip(li: int, kind: int, crlf: bool, surround: bool, corrupt: int) -> bool:
+             'or bytearray, with LF or CRLF line ends, with or without surrounding text, with armor header lines - gives the binary export and the supplied headers back; '
+             'a corrupted payload character is reported (error or CRC warning)',
+    'literal-message payload length by symbolic index from 13 values around the 3-octet and 48-octet boundaries; input type x line ending x surrounding text x 4 header sets '
+    '(none, one, a value containing ": ", two); corruption position by index from 4', cond_timeout={'q': 280, 't': 600}, partitions=[['li == %d' % k] for k in range(13)])
+def armor_roundtrip(li: int, kind: int, crlf: bool, surround: bool, corrupt: int, hi: int = 0) -> bool:
     """
     pre: 0 <= li < 13
     pre: 0 <= kind < 3
     pre: 0 <= corrupt < 5
+    pre: 0 <= hi < 4
     post: _
     """
-    n = 0
-    for k in range(13):
-        if li == k:
-            n = LENS[k]
+    li, kind, corrupt, hi = _pick(li, 13), _pick(kind, 3), _pick(corrupt, 5), _pick(hi, 4)
+    crlf, surround = (True if crlf else False), (True if surround else False)
+    with native():
+        return _armor_roundtrip(LENS[li], kind, crlf, surround, corrupt, HEADERS[hi])
+
+
+def _armor_roundtrip(n, kind, crlf, surround, corrupt, headers):
     saved = Armorable.__dict__['ascii_unarmor']          # the staticmethod object itself
     Armorable.ascii_unarmor = _REAL_UNARMOR
     try:
         msg = PGPMessage.new(bytes((i * 7 + 1) % 256 for i in range(n)), compression=0, file=False, format='b')
+        for k, v in headers:
+            msg.ascii_headers[k] = v
         binary = msg.__bytes__()
         text = str(msg)
         lines = text.split('\n')
         if any(len(l) > 76 for l in lines) or lines[0] != '-----BEGIN PGP MESSAGE-----':
+            return False
+        if lines[1:1 + len(headers)] != ['%s: %s' % kv for kv in headers] or lines[1 + len(headers)] != '':
             return False
         if corrupt:
             # flip one base64 character of the payload (not padding): position from the start / middle / end of the first payload line
@@ -376,22 +413,64 @@ def armor_roundtrip(li: int, kind: int, crlf: bool, surround: bool, corrupt: int
             text = text.replace('\n', '\r\n')
         if surround:
             text = 'Some mail header: x\n\n' + text + '\ntrailing words\n'
-        data = text if kind == 0 else (text.encode('latin-1') if kind == 1 else bytearray(text.encode('latin-1')))
-        import warnings as _w
-        with _w.catch_warnings(record=True) as caught:
-            _w.simplefilter('always')
-            try:
-                rx = PGPMessage.from_blob(data)
-            except Exception:
-                return bool(corrupt)            # only a corrupted block may be refused
-        crc_warned = any('crc24' in str(w.message).lower() for w in caught)
+        rx, crc_warned = _load(_as_kind(text, kind))
         if corrupt:
-            return crc_warned or rx.__bytes__() != binary
-        return rx.__bytes__() == binary and not crc_warned
+            return rx is None or crc_warned          # a payload that does not match its CRC is reported
+        return rx is not None and rx.__bytes__() == binary and not crc_warned and list(rx.ascii_headers.items()) == list(headers)
     finally:
         Armorable.ascii_unarmor = saved
 
 
-SANITY = ['armor_roundtrip(%d, %d, %s, %s, %d)' % (l, k, c, s_, x) for l in (0, 3, 7, 12) for k in range(3) for c in (True, False) for s_ in (True, False) for x in (0, 2)] + ['replay_crc(0, 0)', 'replay_crc(0xB704CE, 0x31)', 'replay_crc(0xFFFFFF, 0xFF)', 
+@ob('O10.6', 'armor written by another producer: the same payload wrapped at any legal line width, and the CRC line present / absent / wrong, on concrete payloads: '
+             'a correct CRC loads to the binary export, a CRC line that does not match the payload (including the all-zero value =AAAA) is reported',
+    'payload length by symbolic index from 13 values; line width from {64, 76, 75, 60, 33, 2, 1}; CRC line from {correct, =AAAA, correct with the last bit flipped} (armor without a CRC line is refused by PGPy: RFC 4880 makes the line optional, the property does not ask for it); LF / CRLF',
+    cond_timeout={'q': 280, 't': 600}, partitions=[['wi == %d' % k] for k in range(7)])
+def armor_foreign(li: int, wi: int, ci: int, crlf: bool) -> bool:
+    """
+    pre: 0 <= li < 13
+    pre: 0 <= wi < 7
+    pre: 0 <= ci < 3
+    post: _
+    """
+    li, wi, ci = _pick(li, 13), _pick(wi, 7), _pick(ci, 3)
+    crlf = True if crlf else False
+    with native():
+        return _armor_foreign(LENS[li], WIDTHS[wi], ci, crlf)
+
+
+def _armor_foreign(n, width, ci, crlf):
+    import base64 as _b64
+    saved = Armorable.__dict__['ascii_unarmor']
+    Armorable.ascii_unarmor = _REAL_UNARMOR
+    try:
+        msg = PGPMessage.new(bytes((i * 11 + 3) % 256 for i in range(n)), compression=0, file=False, format='b')
+        binary = msg.__bytes__()
+        b64 = _b64.b64encode(binary).decode()
+        crc = ref_crc(binary)
+        if ci == 1:
+            crcv = 0
+        elif ci == 2:
+            crcv = crc ^ 1
+        else:
+            crcv = crc
+        body = [b64[i:i + width] for i in range(0, len(b64), width)]
+        # a pad character may not start a line in PGPy's reader (pre-existing restriction, left alone): keep pads on the last data line
+        while len(body) > 1 and body[-1].startswith('='):
+            body[-2] += body[-1]
+            body.pop()
+        lines = ['-----BEGIN PGP MESSAGE-----', ''] + body
+        if True:
+            lines.append('=' + _b64.b64encode(bytes([crcv // 65536, (crcv // 256) % 256, crcv % 256])).decode())
+        lines += ['-----END PGP MESSAGE-----', '']
+        text = ('\r\n' if crlf else '\n').join(lines)
+        rx, crc_warned = _load(text)
+        if ci == 0 or crcv == crc:
+            return rx is not None and rx.__bytes__() == binary and not crc_warned
+        return rx is None or crc_warned
+    finally:
+        Armorable.ascii_unarmor = saved
+
+
+SANITY = ['armor_roundtrip(%d, %d, %s, %s, %d, %d)' % (l, k, c, s_, x, (l + k) % 4) for l in (0, 3, 7, 12) for k in range(3) for c in (True, False) for s_ in (True, False) for x in (0, 2)] + ['armor_foreign(%d, %d, %d, %s)' % (l, w, c, r) for l in (0, 4, 8, 12) for w in range(7) for c in range(3) for r in (True, False)] + ['replay_crc(0, 0)', 'replay_crc(0xB704CE, 0x31)', 'replay_crc(0xFFFFFF, 0xFF)', 
           'crc_line(0)', 'crc_line(255)', 'crc_line(2**24 - 1)', 'crc_line(65536)'] + ['replay_wrap(%d)' % n for n in (0, 1, 63, 64, 65, 4000)] + \
          ['labels(%d, %d, %s)' % (k, l, c) for k in range(4) for l in range(7) for c in (True, False)] + ['crc_line_callsite(0)', 'crc_line_callsite(255)', 'crc_line_callsite(0x010203)']
